@@ -296,7 +296,7 @@ def run(rep):
         if len(st) != 1:
             raise AnalysisError(f"stat/armodels.py: call site of {nm} not found")
         ok, how, _ = xlayer.error_discipline(st[0])
-        rep.check(ok and how == "!=0", "R17.c", "stat/armodels.py", nm, "kernel error code (any non-zero value) raises", how, line=st[0].call.lineno)
+        rep.check(ok and how.split(" ")[0] == "!=0", "R17.c", "stat/armodels.py", nm, "kernel error code (any non-zero value) raises", how, line=st[0].call.lineno)
         f = st[0].func
         pargs = pq.call_arguments(f, st[0].call, list(st[0].shim.params))
         plist = list(st[0].shim.params)
